@@ -981,7 +981,7 @@ var ruleTower = &Rule{
 			}
 		}
 		out.Counts["numeric_type_switches"] = n
-		out.Floors["numeric_type_switches"] = 10
+		out.Floors["numeric_type_switches"] = 3
 		return out
 	},
 }
